@@ -183,6 +183,16 @@ class Flattener:
             c = self.expr(s[1], pre)
             body = self.stmt(s[2])
             return pre + [f".brUnless {c} {len(body)}"] + body
+        if k == "ifelse":
+            # if (c) A else B  →  brUnless c (|A|+1); A; brUnless 0 |B|; B      (`brUnless 0 k` = jump)
+            c = self.expr(s[1], pre)
+            a = self.stmt(s[2])
+            b = self.stmt(s[3])
+            return pre + [f".brUnless {c} {len(a) + 1}"] + a + [f".brUnless (.lit 0) {len(b)}"] + b
+        if k == "declnoinit":
+            self.check_ty(s[2])
+            self.declare(s[1], s[2])       # indeterminate until assigned; registers start at 0 in the model
+            return []
         if k == "ret":
             t = self.expr(s[1], pre)
             return pre + [f".ret {t}"]
@@ -217,6 +227,7 @@ def body_items(f, where):
 
 
 def flatten_grow(view):
+    """→ (register names, steps, source text)"""
     fs = view.funcs()
     if "wasmMemoryGrow" not in fs:
         raise ExtractFail(W, "wasmMemoryGrow not found")
@@ -264,6 +275,13 @@ def alloc_parts(view):
     if size is None or sorted(n for n, _ in inits) != ["maxPages", "pages", "shared", "size"]:
         raise ExtractFail(where, "wasmMemoryAllocate: size computation / field initialisers not found")
     return fl.regs, size, inits
+
+
+def grow_steps_of_header(hdr):
+    """(regs, steps) of wasmMemoryGrow in the given header file (used by the C18 check on patched copies)."""
+    view = gen_macros.HeaderView(hdr, gen_macros.configs()["le"])
+    regs, steps, _ = flatten_grow(view)
+    return regs, steps
 
 
 def generate(repo):
